@@ -201,7 +201,7 @@ struct Shape {
 
 static Shape genShape(Rng & rng, bool thorough) {
     Shape s;
-    size_t n = (size_t)rng.range(1, thorough ? 6 : 5);
+    size_t n = rng.coin(1, 12) ? 1 : (size_t)rng.range(2, thorough ? 6 : 5);
     size_t maxA = thorough ? 4 : 3;
     s.A.resize(n);
     for (auto & a : s.A) a = rng.coin(1, 6) ? 1 : (size_t)rng.range(2, (long)maxA);
@@ -289,7 +289,7 @@ static void random_case(Rng & rng, bool thorough) {
     }
 }
 
-long verif::verif_ncases(const std::string & tier) { return kFixed + (tier == "thorough" ? 6000 : 500); }
+long verif::verif_ncases(const std::string & tier) { return kFixed + (tier == "thorough" ? 20000 : 2500); }
 
 void verif::verif_case(Rng & rng, long idx, const std::string & tier) {
     if (idx < kFixed) { fixed_case(idx); return; }
